@@ -418,10 +418,12 @@ def _perp_unit(d, w):
     e = np.zeros(n)
     e[0] = 1.0
     x = np.concatenate([[0.0], np.asarray(w, dtype=float)])
-    h = e - d
+    # Householder vector chosen WITHOUT cancellation (d + sign(d_0) e1 maps e1 to -+d; the
+    # image of x, which is orthogonal to e1, is orthogonal to d).  h = e1 - d cancels
+    # catastrophically for d close to e1 and made this oracle wrong by 8e-9 once.
+    sg = 1.0 if d[0] >= 0 else -1.0
+    h = d + sg * e
     nh = float(h @ h)
-    if nh < 1e-30:
-        return x
     return x - 2.0 * h * float(h @ x) / nh
 
 
